@@ -598,7 +598,9 @@ pub fn all_families(cfg: &FamCfg, sink: &mut Sink) {
 
     // ---- CREATE + INVOKE: closures capturing 0..8 variables; multi-method objects ---------------
     for k in env_sizes(cfg.thorough, cfg.cap.saturating_sub(4)) {
-        for m in 0..=8usize {
+        // captured environments of 0..8 variables, and 11 / 14 so that the loads at method entry
+        // cross the AArch64 register/spill boundary as well
+        for m in (0..=8usize).chain([11, 14]) {
             if k + m + 3 > cfg.cap {
                 continue;
             }
